@@ -109,11 +109,11 @@ theorem queried_own (env : Env) (s : DState) (r : Req) (hown : s.session = some 
   unfold queried
   simp [ho]
 
-/-- the tree state is not touched by search carriers -/
-theorem runS_state (env : Env) (h : List SOp) : (runS env h).1 = run (treeOps h) := by
+/-- the tree state of a small-step history is that of its tree operations (`addBegin n` acts as
+`initialized n false`; carriers and `addEnd` do not touch it) -/
+theorem runS_state (env : Env) (h : List SOp) : (runS env h).d = run (treeOps h) := by
   unfold runS run
-  suffices ∀ (st : DState × List (Req × List Out)), (h.foldl (stepS env) st).1 = (treeOps h).foldl step st.1 from
-    this (init, [])
+  suffices ∀ (st : SState), (h.foldl (stepS env) st).d = (treeOps h).foldl step st.d from this SState.init
   induction h with
   | nil => intro st; rfl
   | cons op h ih =>
@@ -121,6 +121,8 @@ theorem runS_state (env : Env) (h : List SOp) : (runS env h).1 = run (treeOps h)
     cases op with
     | tree op => simp only [List.foldl_cons, treeOps, ih, stepS]
     | search r => simp only [List.foldl_cons, treeOps, ih, stepS]
+    | addBegin n => simp only [List.foldl_cons, treeOps, ih, stepS]
+    | addEnd c => simp only [List.foldl_cons, treeOps, ih, stepS]
 
 theorem runS_append (env : Env) (h : List SOp) (op : SOp) :
     runS env (h ++ [op]) = stepS env (runS env h) op := by
@@ -152,8 +154,8 @@ theorem reply_not_queried (env : Env) (s : DState) (r : Req) (hq : queried env s
 
 /-- log entries of a history: generalised over the already processed prefix -/
 theorem history_aux (env : Env) (h pre : List SOp) (e : Req × List Out)
-    (he : e ∈ (h.foldl (stepS env) (runS env pre)).2) :
-    e ∈ (runS env pre).2 ∨ ∃ h', h' <+: h ∧ e.2 = handle env (run (treeOps (pre ++ h'))) e.1 := by
+    (he : e ∈ (h.foldl (stepS env) (runS env pre)).log) :
+    e ∈ (runS env pre).log ∨ ∃ h', h' <+: h ∧ e.2 = handle env (runS env (pre ++ h')).d e.1 := by
   induction h generalizing pre with
   | nil => exact Or.inl he
   | cons op h ih =>
@@ -162,16 +164,399 @@ theorem history_aux (env : Env) (h pre : List SOp) (e : Req × List Out)
     · rw [runS_append] at h1
       cases op with
       | tree op => exact Or.inl h1
+      | addBegin n => exact Or.inl h1
+      | addEnd c => exact Or.inl h1
       | search r =>
         simp only [stepS] at h1
         rcases List.mem_append.1 h1 with h1 | h1
         · exact Or.inl h1
         · rw [List.mem_singleton] at h1
           subst h1
-          refine Or.inr ⟨[], List.nil_prefix, ?_⟩
-          rw [List.append_nil, runS_state]
+          exact Or.inr ⟨[], List.nil_prefix, by rw [List.append_nil]⟩
     · refine Or.inr ⟨op :: h', (List.cons_prefix_cons).2 ⟨rfl, hp⟩, ?_⟩
       rw [heq, List.append_assoc]
       rfl
+
+/-! ### a child stays a child for as long as its connection is registered -/
+
+/-- children only leave `children` together with their connection leaving `distributed_peers` -/
+def Stays (s s' : DState) : Prop := ∀ c, c ∈ s.children → c ∈ s'.live → c ∈ s'.children
+
+theorem stays_of_eq {s s' : DState} (h : s'.children = s.children) : Stays s s' := by
+  intro c hc _; rw [h]; exact hc
+
+theorem closePeer_live_sub (s : DState) (x d : ConnId) (h : d ∈ (closePeer s x).live) : d ∈ s.live := by
+  unfold closePeer at h
+  split at h
+  · by_cases hp : s.parent = some x
+    · simp only [if_pos hp] at h
+      have := List.mem_of_mem_erase h
+      simpa using this
+    · simp only [if_neg hp] at h
+      exact List.mem_of_mem_erase h
+  · exact h
+
+theorem closePeer_stays (s : DState) (x : ConnId) (hn : s.live.Nodup) : Stays s (closePeer s x) := by
+  intro c hc hl
+  unfold closePeer at hl ⊢
+  split
+  · rename_i hx
+    rw [if_pos hx] at hl
+    by_cases hp : s.parent = some x
+    · simp only [if_pos hp] at hl ⊢
+      have hl' : c ∈ s.live.erase x := by simpa using hl
+      have hne : c ≠ x := (hn.mem_erase_iff.1 hl').1
+      have : c ∈ s.children.erase x := (List.mem_erase_of_ne hne).2 hc
+      simpa using this
+    · simp only [if_neg hp] at hl ⊢
+      have hne : c ≠ x := (hn.mem_erase_iff.1 hl).1
+      exact (List.mem_erase_of_ne hne).2 hc
+  · exact hc
+
+theorem foldl_closePeer_live_sub (l : List ConnId) (s : DState) (d : ConnId)
+    (h : d ∈ (l.foldl closePeer s).live) : d ∈ s.live := by
+  induction l generalizing s with
+  | nil => exact h
+  | cons x l ih => exact closePeer_live_sub s x d (ih _ h)
+
+theorem foldl_closePeer_stays (l : List ConnId) (s : DState) (hi : Inv s) : Stays s (l.foldl closePeer s) := by
+  induction l generalizing s with
+  | nil => intro c hc _; exact hc
+  | cons x l ih =>
+    intro c hc hl
+    have h1 : c ∈ (closePeer s x).live := foldl_closePeer_live_sub l _ c hl
+    exact ih _ (closePeer_inv s x hi) c (closePeer_stays s x hi.str.liveNodup c hc h1) hl
+
+theorem reset_stays (s : DState) (hi : Inv s) : Stays s (reset s) := by
+  intro c hc hl
+  unfold reset at hl ⊢
+  simp only at hl ⊢
+  have hi1 := foldl_closePeer_inv s.children s hi
+  split
+  · rename_i p hp
+    rw [hp] at hl
+    simp only at hl
+    have h1 := closePeer_live_sub _ p c hl
+    exact closePeer_stays _ p hi1.str.liveNodup c (foldl_closePeer_stays _ s hi c hc h1) hl
+  · rename_i hp
+    rw [hp] at hl
+    exact foldl_closePeer_stays _ s hi c hc hl
+
+theorem checkNewParent_stays (s : DState) (x : ConnId) (hn : s.live.Nodup) : Stays s (checkNewParent s x) := by
+  unfold checkNewParent
+  split
+  · split
+    · exact stays_of_eq (setParent_children s x)
+    · exact closePeer_stays s x hn
+  · intro c hc _; exact hc
+
+theorem onLevel_stays (s : DState) (x : ConnId) (n : Nat) (hn : s.live.Nodup) : Stays s (onLevel s x n) := by
+  unfold onLevel
+  split
+  · by_cases hp : s.parent = some x
+    · simp only [if_pos hp]
+      exact stays_of_eq (by simp)
+    · simp only [if_neg hp]
+      intro c hc hl
+      refine checkNewParent_stays _ x ?_ c ?_ hl
+      · exact hn
+      · exact hc
+  · intro c hc _; exact hc
+
+theorem onRoot_stays (s : DState) (x : ConnId) (r : Name) (hn : s.live.Nodup) : Stays s (onRoot s x r) := by
+  unfold onRoot
+  split
+  · split
+    · intro c hc _; exact hc
+    · by_cases hp : s.parent = some x
+      · simp only [if_pos hp]
+        exact stays_of_eq (by simp)
+      · simp only [if_neg hp]
+        intro c hc hl
+        refine checkNewParent_stays _ x ?_ c ?_ hl
+        · exact hn
+        · exact hc
+  · intro c hc _; exact hc
+
+theorem checkNewChild_stays (s : DState) (x : ConnId) (hn : s.live.Nodup) : Stays s (checkNewChild s x) := by
+  unfold checkNewChild
+  split
+  · intro c hc _; exact hc
+  · split
+    · exact closePeer_stays s x hn
+    · split
+      · exact closePeer_stays s x hn
+      · intro c hc _
+        rw [addChild_children]
+        exact List.mem_append_left _ hc
+
+theorem initialized_stays (s : DState) (n : Name) (r : Bool) (hi : Inv s) : Stays s (initialized s n r) := by
+  rw [initialized_eq]
+  split
+  · exact stays_of_eq rfl
+  · intro c hc hl
+    exact checkNewChild_stays (withConn s n) s.nextConn (withConn_inv s n hi).str.liveNodup c hc hl
+
+theorem onUserStats_children (s : DState) (n : Name) (sp : Nat) : (onUserStats s n sp).children = s.children := by
+  unfold onUserStats; simp only; split
+  · split
+    · rfl
+    · split <;> rfl
+  · rfl
+
+theorem requestUserStats_children (s : DState) : (requestUserStats s).children = s.children := by
+  unfold requestUserStats; split <;> rfl
+
+theorem step_stays (s : DState) (op : Op) (hi : Inv s) : Stays s (step s op) := by
+  cases op with
+  | potentialParents ns => exact stays_of_eq rfl
+  | initialized n r => exact initialized_stays s n r hi
+  | level c n => exact onLevel_stays s c n hi.str.liveNodup
+  | root c r => exact onRoot_stays s c r hi.str.liveNodup
+  | closed c => exact closePeer_stays s c hi.str.liveNodup
+  | userStats n sp => exact stays_of_eq (onUserStats_children s n sp)
+  | minSpeed n => exact stays_of_eq (requestUserStats_children _)
+  | speedRatio n => exact stays_of_eq (requestUserStats_children _)
+  | resetDistributed => exact reset_stays s hi
+  | sessionInit me => exact stays_of_eq (by simp [step])
+  | sessionDestroyed => exact stays_of_eq rfl
+  | serverStateChange => exact stays_of_eq rfl
+
+theorem run_append (ops : List Op) (op : Op) : run (ops ++ [op]) = step (run ops) op := by
+  simp [run, List.foldl_append]
+
+/-! ### a registered connection that has been sent our branch level is a child -/
+
+/-- `toldL c ≠ none`: a `DistributedBranchLevel` has been written to connection `c` -/
+def ToldChild (s : DState) : Prop := ∀ c, c ∈ s.live → s.toldL c ≠ none → c ∈ s.children
+
+theorem ToldChild.congr {s s' : DState} (h : ToldChild s) (h1 : s'.live = s.live) (h2 : s'.toldL = s.toldL)
+    (h3 : s'.children = s.children) : ToldChild s' := by
+  intro c hc ht; rw [h3]; exact h c (h1 ▸ hc) (h2 ▸ ht)
+
+theorem notifyServer_tc (s : DState) (h : ToldChild s) : ToldChild (notifyServer s) :=
+  h.congr (by simp) (by simp) (by simp)
+
+theorem notifyChildren_tc (s : DState) (h : ToldChild s) : ToldChild (notifyChildren s) := by
+  intro c hc ht
+  rw [notifyChildren_children]
+  rw [notifyChildren_live] at hc
+  by_cases hm : c ∈ s.children
+  · exact hm
+  · apply h c hc
+    unfold notifyChildren at ht
+    split at ht
+    · simpa [hm] using ht
+    · exact ht
+
+theorem erase_tc (s : DState) (x : ConnId) (hn : s.live.Nodup) (h : ToldChild s) :
+    ToldChild { s with children := s.children.erase x, live := s.live.erase x } := by
+  intro c hc ht
+  have hc' : c ∈ s.live.erase x := hc
+  have hne : c ≠ x := (hn.mem_erase_iff.1 hc').1
+  exact (List.mem_erase_of_ne hne).2 (h c (List.mem_of_mem_erase hc') ht)
+
+theorem closePeer_tc (s : DState) (x : ConnId) (hn : s.live.Nodup) (h : ToldChild s) :
+    ToldChild (closePeer s x) := by
+  unfold closePeer
+  split
+  · by_cases hp : s.parent = some x
+    · simp only [if_pos hp]
+      refine erase_tc _ x (by simpa using hn) ?_
+      exact notifyChildren_tc _ (notifyServer_tc _ (h.congr rfl rfl rfl))
+    · simp only [if_neg hp]
+      exact erase_tc s x hn h
+  · exact h
+
+theorem foldl_closePeer_tc (l : List ConnId) (s : DState) (hi : Inv s) (h : ToldChild s) :
+    ToldChild (l.foldl closePeer s) := by
+  induction l generalizing s with
+  | nil => exact h
+  | cons x l ih => exact ih _ (closePeer_inv s x hi) (closePeer_tc s x hi.str.liveNodup h)
+
+theorem reset_tc (s : DState) (hi : Inv s) (h : ToldChild s) : ToldChild (reset s) := by
+  unfold reset
+  simp only
+  have hi1 := foldl_closePeer_inv s.children s hi
+  have h1 := foldl_closePeer_tc s.children s hi h
+  split
+  · exact closePeer_tc _ _ hi1.str.liveNodup h1
+  · exact h1
+
+theorem setParent_tc (s : DState) (x : ConnId) (h : ToldChild s) : ToldChild (setParent s x) := by
+  unfold setParent
+  apply notifyChildren_tc
+  apply notifyServer_tc
+  intro c hc ht
+  exact h c (List.mem_filter.1 hc).1 ht
+
+theorem checkNewParent_tc (s : DState) (x : ConnId) (hn : s.live.Nodup) (h : ToldChild s) :
+    ToldChild (checkNewParent s x) := by
+  unfold checkNewParent
+  split
+  · split
+    · exact setParent_tc s x h
+    · exact closePeer_tc s x hn h
+  · exact h
+
+theorem onLevel_tc (s : DState) (x : ConnId) (n : Nat) (hn : s.live.Nodup) (h : ToldChild s) :
+    ToldChild (onLevel s x n) := by
+  unfold onLevel
+  split
+  · by_cases hp : s.parent = some x
+    · simp only [if_pos hp]
+      exact notifyChildren_tc _ (notifyServer_tc _ (h.congr rfl rfl rfl))
+    · simp only [if_neg hp]
+      exact checkNewParent_tc _ x hn (h.congr rfl rfl rfl)
+  · exact h
+
+theorem onRoot_tc (s : DState) (x : ConnId) (r : Name) (hn : s.live.Nodup) (h : ToldChild s) :
+    ToldChild (onRoot s x r) := by
+  unfold onRoot
+  split
+  · split
+    · exact h
+    · by_cases hp : s.parent = some x
+      · simp only [if_pos hp]
+        exact notifyChildren_tc _ (notifyServer_tc _ (h.congr rfl rfl rfl))
+      · simp only [if_neg hp]
+        exact checkNewParent_tc _ x hn (h.congr rfl rfl rfl)
+  · exact h
+
+theorem addChild_tc (s : DState) (x : ConnId) (h : ToldChild s) : ToldChild (addChild s x) := by
+  intro c hc ht
+  rw [addChild_children]
+  by_cases hcx : c = x
+  · subst hcx; simp
+  · apply List.mem_append_left
+    have hl : (addChild s x).live = s.live := by unfold addChild; split <;> rfl
+    apply h c (hl ▸ hc)
+    unfold addChild at ht
+    split at ht
+    · simpa [upd, hcx] using ht
+    · exact ht
+
+theorem checkNewChild_tc (s : DState) (x : ConnId) (hn : s.live.Nodup) (h : ToldChild s) :
+    ToldChild (checkNewChild s x) := by
+  unfold checkNewChild
+  split
+  · exact h
+  · split
+    · exact closePeer_tc s x hn h
+    · split
+      · exact closePeer_tc s x hn h
+      · exact addChild_tc s x h
+
+theorem withConn_tc (s : DState) (n : Name) (h : ToldChild s) : ToldChild (withConn s n) := by
+  intro c hc ht
+  have hc' : c ∈ s.live ++ [s.nextConn] := hc
+  have ht' : upd s.toldL s.nextConn none c ≠ none := ht
+  show c ∈ s.children
+  by_cases hcx : c = s.nextConn
+  · subst hcx; simp at ht'
+  · rw [upd_ne _ _ _ _ hcx] at ht'
+    rcases List.mem_append.1 hc' with hl | hl
+    · exact h c hl ht'
+    · simp at hl; exact absurd hl hcx
+
+theorem initialized_tc (s : DState) (n : Name) (r : Bool) (hi : Inv s) (h : ToldChild s) :
+    ToldChild (initialized s n r) := by
+  rw [initialized_eq]
+  split
+  · exact withConn_tc s n h
+  · exact checkNewChild_tc _ _ (withConn_inv s n hi).str.liveNodup (withConn_tc s n h)
+
+theorem requestUserStats_tc (s : DState) (h : ToldChild s) : ToldChild (requestUserStats s) := by
+  unfold requestUserStats
+  split
+  · exact h.congr rfl rfl rfl
+  · exact h
+
+theorem onUserStats_tc (s : DState) (n : Name) (sp : Nat) (h : ToldChild s) : ToldChild (onUserStats s n sp) := by
+  unfold onUserStats
+  simp only
+  split
+  · split
+    · exact h.congr rfl rfl rfl
+    · split
+      · exact h.congr rfl rfl rfl
+      · exact h.congr rfl rfl rfl
+  · exact h
+
+theorem step_tc (s : DState) (op : Op) (hi : Inv s) (h : ToldChild s) : ToldChild (step s op) := by
+  cases op with
+  | potentialParents ns => exact h.congr rfl rfl rfl
+  | initialized n r => exact initialized_tc s n r hi h
+  | level c n => exact onLevel_tc s c n hi.str.liveNodup h
+  | root c r => exact onRoot_tc s c r hi.str.liveNodup h
+  | closed c => exact closePeer_tc s c hi.str.liveNodup h
+  | userStats n sp => exact onUserStats_tc s n sp h
+  | minSpeed n => exact requestUserStats_tc _ (h.congr rfl rfl rfl)
+  | speedRatio n => exact requestUserStats_tc _ (h.congr rfl rfl rfl)
+  | resetDistributed => exact reset_tc s hi h
+  | sessionInit me => exact notifyChildren_tc _ (notifyServer_tc _ (h.congr rfl rfl rfl))
+  | sessionDestroyed => exact h.congr rfl rfl rfl
+  | serverStateChange => exact h.congr rfl rfl rfl
+
+theorem run_tc (ops : List Op) : ToldChild (run ops) := by
+  suffices ∀ (l : List Op) (s : DState), Inv s → ToldChild s → ToldChild (l.foldl step s) from
+    this ops init init_inv (by intro c hc; simp [init] at hc)
+  intro l
+  induction l with
+  | nil => intro s _ h; exact h
+  | cons op l ih => intro s hi h; exact ih _ (step_inv s op hi) (step_tc s op hi h)
+
+/-! ### adds in progress -/
+
+/-- every add in progress is on a registered connection that is listed as a child -/
+def AddingOK (st : SState) : Prop := ∀ c, c ∈ st.adding → c ∈ st.d.live ∧ c ∈ st.d.children
+
+theorem stillAdding_ok (adding : List ConnId) (d d' : DState) (hs : Stays d d')
+    (h : ∀ c, c ∈ adding → c ∈ d.live ∧ c ∈ d.children) :
+    ∀ c, c ∈ stillAdding adding d' → c ∈ d'.live ∧ c ∈ d'.children := by
+  intro c hc
+  unfold stillAdding at hc
+  have hm := List.mem_filter.1 hc
+  have hl : c ∈ d'.live := by simpa using hm.2
+  exact ⟨hl, hs c (h c hm.1).2 hl⟩
+
+theorem stepS_addingOK (env : Env) (st : SState) (op : SOp) (hi : Inv st.d) (h : AddingOK st) :
+    AddingOK (stepS env st op) := by
+  cases op with
+  | tree op =>
+    exact stillAdding_ok st.adding st.d _ (step_stays st.d op hi) h
+  | search r => exact h
+  | addBegin n =>
+    intro c hc
+    simp only [stepS] at hc ⊢
+    rcases List.mem_append.1 hc with hc | hc
+    · exact stillAdding_ok st.adding st.d _ (step_stays st.d _ hi) h c hc
+    · split at hc
+      · rename_i hcond
+        rw [List.mem_singleton] at hc
+        subst hc
+        exact ⟨(step_inv st.d _ hi).str.childLive _ hcond.1, hcond.1⟩
+      · simp at hc
+  | addEnd x =>
+    intro c hc
+    exact h c (List.mem_of_mem_erase hc)
+
+theorem runS_inv (env : Env) (h : List SOp) : Inv (runS env h).d := by
+  rw [runS_state]; exact run_inv _
+
+theorem stepS_inv (env : Env) (st : SState) (op : SOp) (hi : Inv st.d) : Inv (stepS env st op).d := by
+  cases op with
+  | tree op => exact step_inv st.d op hi
+  | search r => exact hi
+  | addBegin n => exact step_inv st.d (.initialized n false) hi
+  | addEnd c => exact hi
+
+theorem runS_addingOK (env : Env) (h : List SOp) : AddingOK (runS env h) := by
+  unfold runS
+  suffices ∀ (st : SState), Inv st.d → AddingOK st → AddingOK (h.foldl (stepS env) st) from
+    this SState.init init_inv (by intro c hc; simp [SState.init] at hc)
+  induction h with
+  | nil => intro st _ h; exact h
+  | cons op h ih => intro st hi hok; exact ih _ (stepS_inv env st op hi) (stepS_addingOK env st op hi hok)
 
 end AioslskVerif.DistSearch
